@@ -218,6 +218,17 @@ func main(a, b [2]byte) (uint8, uint8, bool, []byte) {
 	return vhelp.Help(a[0]), vhelp2.Help(b[1]), bytes.Equal(a[:], b[:]), []byte(s)
 }
 `},
+		// a package of two source files, each with a package-level variable
+		stream.Program{Name: "crafted/a package of two source files (vmulti)", Src: `package main
+
+import (
+	"vmulti"
+)
+
+func main(a, b int32) (int32, int32) {
+	return vmulti.FromA(a), vmulti.FromB(b) + vmulti.A
+}
+`},
 		// multiplications in several width classes of the per-width algorithm selection (16..21 and
 		// 37..41 bits have thresholds of their own): whatever one compilation resolves must not be
 		// what the next one, on the same Params value, starts from
@@ -368,6 +379,56 @@ type Job struct {
 	CPUs       int    // > 0: the job stands for a compilation on a host with that many CPUs
 	Retain     bool   // the compiled circuit is marshalled again after another compilation on the instance
 	MapSeed    uint64 // child processes: seed of the map-order stream
+	// PkgOrder 1 or 2: the harness package vmulti (two source files) is found in a copy whose files
+	// were created a.mpcl first or b.mpcl first, on a file system that lists a directory in the order
+	// of creation (tmpfs) - two parties' checkouts of the same package
+	PkgOrder int
+}
+
+// pkgRoot, if set, is searched for packages before PkgDir (see Job.PkgOrder).
+var pkgRoot string
+
+// pkgCopy returns a package root that holds a copy of vmulti whose files were created in the given
+// order, or "" if there is no tmpfs to put it on. The copy is made once per machine (it is two
+// small files under /dev/shm/verifsim-c08) and published with a rename, so that no process ever
+// sees it half written.
+func pkgCopy(order int) string {
+	const base = "/dev/shm"
+	if st, err := os.Stat(base); err != nil || !st.IsDir() {
+		return ""
+	}
+	root := filepath.Join(base, "verifsim-c08", fmt.Sprintf("o%d", order))
+	final := filepath.Join(root, "vmulti")
+	if _, err := os.Stat(filepath.Join(final, "b.mpcl")); err == nil {
+		return root
+	}
+	if err := os.MkdirAll(root, 0o755); err != nil {
+		return ""
+	}
+	tmp, err := os.MkdirTemp(root, "tmp-")
+	if err != nil {
+		return ""
+	}
+	defer os.RemoveAll(tmp)
+	names := []string{"a.mpcl", "b.mpcl"}
+	if order == 2 {
+		names = []string{"b.mpcl", "a.mpcl"}
+	}
+	for _, n := range names {
+		b, err := os.ReadFile(filepath.Join(PkgDir, "vmulti", n))
+		if err != nil {
+			return ""
+		}
+		if err := os.WriteFile(filepath.Join(tmp, n), b, 0o644); err != nil {
+			return ""
+		}
+	}
+	if err := os.Rename(tmp, final); err != nil {
+		if _, err2 := os.Stat(filepath.Join(final, "b.mpcl")); err2 != nil {
+			return ""
+		}
+	}
+	return root
 }
 
 // Artefacts are the outputs compared.
@@ -406,6 +467,9 @@ func (slowWriter) Close() error { return nil }
 func newParams(v Variant) *utils.Params {
 	p := utils.NewParams()
 	p.PkgPath = []string{PkgDir}
+	if pkgRoot != "" {
+		p.PkgPath = []string{pkgRoot, PkgDir}
+	}
 	p.Config = &env.Config{Rand: simrand.Stream("compile")}
 	p.Warn.DisableAll()
 	p.OptPruneGates = v.Prune
@@ -464,6 +528,13 @@ func RunJob(j Job, keepSSA bool) (a Artefacts) {
 	if j.CPUs > 0 {
 		rt.SetNumCPU(j.CPUs)
 		defer rt.SetNumCPU(0)
+	}
+	if j.PkgOrder != 0 {
+		if r := pkgCopy(j.PkgOrder); r != "" {
+			pkgRoot = r
+			defer func() { pkgRoot = "" }()
+			rt.Reach("job.package-files-created-in-another-order")
+		}
 	}
 	params := newParams(j.Variant)
 	cc := compiler.New(params)
@@ -738,6 +809,9 @@ func (w *world) Run(t *rt.Tape, trace bool) *core.Result {
 			j.Twice = t.Choose(rt.SGen, 4) == 0
 		}
 		j.Retain = t.Choose(rt.SGen, 4) == 0
+		if strings.Contains(p.Src, `"vmulti"`) {
+			j.PkgOrder = 1 + t.Choose(rt.SGen, 2)
+		}
 		if t.Choose(rt.SGen, 2) == 0 {
 			// "two parties that compile independently": another host, another CPU count
 			j.CPUs = rt.CPUChoice(t)
